@@ -126,7 +126,8 @@ OTreeOK(c) == OReplay(c.cmds, 1, <<>>)
 PCallOK(c) == PReplay(c.cmds, 1, PInit, DevSet)
 
 \* ---- SASL conversations with a real server (C08) ----
-AuthOK(c) == AReplay([allowed |-> SetOfSeq(c.allowed), sockUid |-> c.sockUid, serverUid |-> c.serverUid, sockCanReadKeyring |-> TRUE],
+AuthOK(c) == AReplay([allowed |-> SetOfSeq(c.allowed), sockUid |-> c.sockUid, serverUid |-> c.serverUid, sockCanReadKeyring |-> TRUE,
+                      sockGids |-> IF "sockGids" \in DOMAIN c THEN c.sockGids ELSE <<>>],
                      c.cmds, 1, AInit)
 
 \* ---- the activation helper's validation chain (C19): exit code, and the argument vector it executed ----
